@@ -221,6 +221,19 @@ Theorem C13_reference_add :
 Proof. exact hadd_ref. Qed.
 Print Assumptions C13_reference_add.
 
+(* a bulk load is the reference run on the (value or midpoint, count) pairs numpy produced *)
+Theorem C13_reference_bulkload :
+  forall (fadd fsub fmul fdiv : Q -> Q -> Q) (fofZ : Z -> Q) (ftrunc : Q -> Z),
+  (forall a b, fadd a b = fadd b a) ->
+  forall (s : @st Q) (pairs : list (Q * Z)) (dmin dmax : Q),
+  Inv s -> cache_exact fadd fsub fmul fdiv fofZ ftrunc s -> pairs <> [] ->
+  uniq_trace fadd fsub fmul fdiv fofZ ftrunc (cap s) (bins s) (filter (fun p => Z.ltb 0 (snd p)) pairs) ->
+  exists s', bulkload (AA fadd fsub fmul fdiv fofZ ftrunc) s pairs dmin dmax = Some s' /\
+             ref_feed (AA fadd fsub fmul fdiv fofZ ftrunc) (cap s) (bins s)
+                      (filter (fun p => Z.ltb 0 (snd p)) pairs) = Some (bins s').
+Proof. exact bulkload_ref. Qed.
+Print Assumptions C13_reference_bulkload.
+
 (* the exact-arithmetic instance *)
 Theorem C13_reference_history_exact :
   forall (cap0 : nat) (l : list (Q * Z)),
